@@ -13,6 +13,12 @@ CHECKS = {
         "portfolio with symbolic valid paths, symbolic n and operator. 'Confirmed over all paths' per obligation.",
    note="Trusted: reference definitions transcribed from islaspec.rst, CrossHair's int/list models. Outside: longer paths, trees outside the portfolio.",
    design="§3 C04"),
+ "C05": dict(level="other", technique="SMT (z3 5.1.0 + cvc5): per-operator Python-semantics encoding of the real fast-path constructors vs Z3 operator terms; regex-language equivalence of the produced Python patterns; CrossHair on construct_result",
+   text=BOUNDED + "Per-operator local obligations over all integers / all strings, regex language equivalence over all strings for an "
+        "enumerated regex family (~800 quick / ~15k thorough), plumbing by CrossHair; together they give agreement with Z3 by structural induction. "
+        "Operators without fast path are probed for falling back to Z3 at all three call sites.",
+   note="Trusted: PySem and SRE2SMT translators (self-tested against the real closures / CPython re on every run), z3 5.1.0 and cvc5 1.0.3 agreeing, z3 4.11.2 as ground oracle. Known findings listed in KNOWN_FINDINGS.txt.",
+   design="§3 C05"),
 }
 NOT_APPLICABLE = {
  "C21": "needs end-to-end solve() on the shipped formalizations plus external validators (docutils, XML parser): the solver loop is a heap algorithm around Z3 calls that no engine here can encode, and the validators are not solver objects",
